@@ -52,6 +52,17 @@ Definition authorised (cr : addr) (cc : list addr) (l : msg) : Prop :=
   | Exec _ _ => False
   end.
 
+(** what the edits carried by a tx do to the sudoers when every one of them succeeds *)
+Definition apply_edit (rc : addr * list addr) (m : msg) : addr * list addr :=
+  match m with
+  | EditSudoers Add _ cs _ => (fst rc, fold_left (fun acc a => insert a acc) cs (snd rc))
+  | EditSudoers Remove _ cs _ => (fst rc, fold_left (fun acc a => remove_addr a acc) cs (snd rc))
+  | ChangeRoot _ n => (n, snd rc)
+  | _ => rc
+  end.
+
+Definition apply_edits (l : list msg) (rc : addr * list addr) : addr * list addr := fold_left apply_edit l rc.
+
 Definition unchanged (cr : addr) (cc : list addr) (o : obs) : Prop :=
   o_root o = cr /\ o_contracts o = cc /\ o_same_sudo o = true /\
   o_same_oracle o = true /\ o_same_infl o = true /\ o_same_meta o = true.
@@ -63,6 +74,9 @@ Definition step_P (cr : addr) (cc : list addr) (tx : list msg) (o : obs) : Prop 
   (* only the current root edits the sudoers *)
   (o_root o <> cr \/ o_contracts o <> cc \/ o_same_sudo o = false ->
      exists m, In m (leaves_tx tx) /\ is_edit m = true /\ signer m = cr) /\
+  (* an accepted tx leaves exactly the sudoers its edits describe: added means listed, removed means
+     gone, the new root is the one named *)
+  (o_ok o = true -> (o_root o, o_contracts o) = apply_edits (leaves_tx tx) (cr, cc)) /\
   (* a single privileged message (direct or wrapped in authz exec) succeeds only with authority … *)
   (forall m l, tx = [m] -> single_leaf m = Some l -> o_ok o = true -> authorised cr cc l) /\
   (* … and, sent directly, succeeds whenever it has it *)
@@ -88,6 +102,9 @@ Definition step_Pb (cr : addr) (cc : list addr) (tx : list msg) (o : obs) : bool
   (o_ok o || unchanged_b cr cc o) &&
   (((o_root o =? cr) && list_eqb (o_contracts o) cc && o_same_sudo o) ||
    existsb (fun m => is_edit m && (signer m =? cr)) (leaves_tx tx)) &&
+  (negb (o_ok o) ||
+   ((o_root o =? fst (apply_edits (leaves_tx tx) (cr, cc))) &&
+    list_eqb (o_contracts o) (snd (apply_edits (leaves_tx tx) (cr, cc))))) &&
   (match tx with
    | [m] =>
        match single_leaf m with
@@ -155,8 +172,8 @@ Proof. intro H. apply existsb_exists in H. exact H. Qed.
 Lemma step_Pb_sound cr cc tx o : step_Pb cr cc tx o = true -> step_P cr cc tx o.
 Proof.
   unfold step_Pb, step_P. rewrite !andb_true_iff.
-  intros [[[[[H1 H2] H3] H4] H5] H6].
-  split; [|split; [|split; [|split; [|split; [|split]]]]].
+  intros [[[[[[H1 H2] He] H3] H4] H5] H6].
+  split; [|split; [|split; [|split; [|split; [|split; [|split]]]]]].
   - intro Hk. rewrite Hk in H1. simpl in H1. apply unchanged_b_sound in H1. exact H1.
   - intro Hc. apply orb_true_iff in H2 as [H2|H2].
     + rewrite !andb_true_iff, Nat.eqb_eq in H2. destruct H2 as [[Ha Hb] Hd].
@@ -164,6 +181,9 @@ Proof.
       rewrite Hd in Hc. discriminate.
     + apply existsb_leaf in H2 as (m & Hin & Hm). apply andb_true_iff in Hm as [Hm1 Hm2].
       apply Nat.eqb_eq in Hm2. exists m. auto.
+  - intro Hok. rewrite Hok in He. simpl in He. apply andb_true_iff in He as [He1 He2].
+    apply Nat.eqb_eq in He1. apply list_eqb_eq in He2.
+    destruct (apply_edits (leaves_tx tx) (cr, cc)) as [r1 c1]. simpl in *. subst. reflexivity.
   - intros m l Htx Hl Hok. subst tx. rewrite Hl in H3.
     apply andb_true_iff in H3 as [H3 _]. rewrite Hok in H3. simpl in H3.
     apply authorised_b_sound. exact H3.
